@@ -145,6 +145,52 @@ def r16_2(ctx: Ctx):
     return obs
 
 
+class _ExpandedCond:
+    """a path condition whose test was replaced by the expression a predicate method of the wrapper returns"""
+
+    def __init__(self, c, new_ast):
+        self.ast = new_ast
+        self.stmt = getattr(c, "stmt", None)
+        self.kind = getattr(c, "kind", "cond")
+        self.id = getattr(c, "id", -1)
+        self.label = getattr(c, "label", "")
+
+
+def _expand_self_predicate(ctx, ci, e, selfn, depth=0):
+    """`self.m(a, ..)` / `self.p` where m / p of the class is one `return <expression>`: that expression with the arguments put
+    in (also under `not`); anything else unchanged"""
+    import copy
+
+    if e is None or depth > 3:
+        return e
+    if isinstance(e, ast.UnaryOp) and isinstance(e.op, ast.Not):
+        inner = _expand_self_predicate(ctx, ci, e.operand, selfn, depth + 1)
+        return e if inner is e.operand else ast.copy_location(ast.UnaryOp(op=ast.Not(), operand=inner), e)
+    call = e if isinstance(e, ast.Call) else None
+    attr = call.func if call is not None else e
+    if not (isinstance(attr, ast.Attribute) and isinstance(attr.value, ast.Name) and attr.value.id == selfn):
+        return e
+    m = ctx.prog.lookup_method(ci, attr.attr)
+    if m is None or (call is None) != bool(getattr(m, "is_property", False)):
+        return e
+    body = [x for x in m.node.body if not (isinstance(x, ast.Expr) and isinstance(x.value, ast.Constant))]
+    if len(body) != 1 or not isinstance(body[0], ast.Return) or body[0].value is None:
+        return e
+    params = m.params()[1:]
+    if call is not None and (call.keywords or len(call.args) != len(params) or any(isinstance(a, ast.Starred) for a in call.args)):
+        return e
+    mp = dict(zip(params, call.args)) if call is not None else {}
+    mp[m.self_name()] = ast.Name(id=selfn, ctx=ast.Load())
+    out = copy.deepcopy(body[0].value)
+
+    class _S(ast.NodeTransformer):
+        def visit_Name(self, n):
+            return copy.deepcopy(mp[n.id]) if n.id in mp and isinstance(n.ctx, ast.Load) else n
+
+    out = ast.fix_missing_locations(ast.copy_location(_S().visit(out), e))
+    return _expand_self_predicate(ctx, ci, out, selfn, depth + 1)
+
+
 def _evaluate_hooks(ctx) -> set:
     """private methods of Problem classes whose only callers are the evaluate methods of Problem classes (or other such hooks)"""
     if getattr(ctx, "_eval_hooks", None) is not None:
@@ -178,6 +224,25 @@ def _prop_aliases(ctx, ci) -> dict:
 
 
 _ALIASES: dict = {}
+_PROP_EXPRS: dict = {}  # boolean properties of the wrapper under analysis: name -> returned expression (self named as in evaluate)
+
+
+def _fill_prop_exprs(ctx, ci, selfn):
+    _PROP_EXPRS.clear()
+    for c in ctx.prog.mro(ci):
+        for nm, m in c.methods.items():
+            if getattr(m, "is_property", False) and nm not in _PROP_EXPRS:
+                rets = [r for r in body_walk(m.node) if isinstance(r, ast.Return) and r.value is not None]
+                if len(rets) == 1 and isinstance(rets[0].value, (ast.Compare, ast.UnaryOp)) and len([x for x in m.node.body if not (isinstance(x, ast.Expr) and isinstance(x.value, ast.Constant))]) == 1:
+                    e = rets[0].value
+                    if m.self_name() != selfn:
+                        import copy
+
+                        e = copy.deepcopy(e)
+                        for x in ast.walk(e):
+                            if isinstance(x, ast.Name) and x.id == m.self_name():
+                                x.id = selfn
+                    _PROP_EXPRS[nm] = e
 
 
 def _norm_guard(cond: ast.AST, outcome: bool, counter: str, cutoff: str, selfn: str):
@@ -189,6 +254,16 @@ def _norm_guard(cond: ast.AST, outcome: bool, counter: str, cutoff: str, selfn: 
 
     if isinstance(cond, ast.NamedExpr):
         cond = cond.value
+    # the test may be read through a boolean property of the wrapper (`if self.cutoff_reached:`): look at what it returns
+    hops = 0
+    while hops < 3:
+        if isinstance(cond, ast.UnaryOp) and isinstance(cond.op, ast.Not):
+            cond, outcome = cond.operand, not outcome
+        elif isinstance(cond, ast.Attribute) and isinstance(cond.value, ast.Name) and cond.value.id == selfn and cond.attr in _PROP_EXPRS:
+            cond = _PROP_EXPRS[cond.attr]
+        else:
+            break
+        hops += 1
     if not (isinstance(cond, ast.Compare) and len(cond.ops) == 1):
         return None
     l, r = cond.left, cond.comparators[0]
@@ -244,6 +319,7 @@ def r16_3(ctx: Ctx):
     obs = []
     _ALIASES.clear()
     _ALIASES.update(_prop_aliases(ctx, ci))
+    _fill_prop_exprs(ctx, ci, selfn)
     _TABLES.clear()
     for st_ in f.module.tree.body:
         if isinstance(st_, (ast.Assign, ast.AnnAssign)) and isinstance(getattr(st_, "value", None), ast.Dict):
@@ -384,7 +460,13 @@ def r16_4(ctx: Ctx):
         # guards on this path
         guard_first = guard_prec = False
         negated_only = None
+        opaque_pred = None
         for c, lab in s.conds:
+            if is_self_attr(c.ast, "hit_precision", selfn) and lab is False:
+                guard_first = True  # (tested on the condition as written: the flag may itself be a property)
+            c = _ExpandedCond(c, _expand_self_predicate(ctx, ci, c.ast, selfn))
+            if isinstance(c.ast, ast.Call) and isinstance(c.ast.func, ast.Attribute) and isinstance(c.ast.func.value, ast.Name) and c.ast.func.value.id == selfn:
+                opaque_pred = c.ast
             t = norm(c.ast)
             if is_self_attr(c.ast, "hit_precision", selfn) and lab is False:
                 guard_first = True
@@ -399,7 +481,7 @@ def r16_4(ctx: Ctx):
                     guard_prec = True
                     negated_only = c.ast if (lab is False and negated_only is None) else False if lab is True else negated_only
         obs.append(ctx.ob("R16.4", f, eta_stmt, status=OK if guard_first else VIOLATION, detail="ETA store guarded by `not hit_precision`" if guard_first else "ETA can be overwritten after the first hit (no `not hit_precision` guard on the path)", construct="eta-first-hit-guard"))
-        obs.append(ctx.ob("R16.4", f, eta_stmt, status=OK if guard_prec else VIOLATION, detail="ETA store guarded by |fitness - optimum| <= precision" if guard_prec else "ETA store is not guarded by |fitness - optimum| <= precision", construct="eta-precision-guard"))
+        obs.append(ctx.ob("R16.4", f, eta_stmt, status=OK if guard_prec else INCONCLUSIVE if opaque_pred is not None else VIOLATION, detail="ETA store guarded by |fitness - optimum| <= precision" if guard_prec else f"the ETA store is guarded by `{norm(opaque_pred)[:60]}`, a method of the wrapper that is not a single returned comparison: not followed" if opaque_pred is not None else "ETA store is not guarded by |fitness - optimum| <= precision", construct="eta-precision-guard"))
         if guard_prec and negated_only:
             # the hit is the FALSE outcome of `|f - opt| > eps`: a NaN value (a failed evaluation) compares false to everything, so it
             # takes that outcome too, unless the path also tests the value for NaN
@@ -619,8 +701,17 @@ def r16_7(ctx: Ctx):
     """R16.7 SingularProblemPrecisionReached returns the wrapper's sticky hit_precision flag."""
     m = ctx.prog.own_method("SingularProblemPrecisionReached", "__call__")
     rets = [n for n in body_walk(m.node) if isinstance(n, ast.Return)]
-    ok = len(rets) == 1 and isinstance(rets[0].value, ast.Attribute) and rets[0].value.attr == "hit_precision" and is_self_attr(rets[0].value.value, "problem", m.self_name())
-    return [ctx.ob("R16.7", m, m.node, status=OK if ok else VIOLATION, detail="reads problem.hit_precision" if ok else f"the stop condition returns `{norm(rets[0].value) if rets else '?'}` instead of the sticky flag", construct="precision-gsc")]
+    defs = local_defs(m)
+    v = rets[0].value if len(rets) == 1 else None
+    hops = 0
+    while isinstance(v, ast.Name) and len(defs.get(v.id, [])) == 1 and hops < 3:
+        v = defs[v.id][0]  # the flag read into a local first (e.g. to log it)
+        hops += 1
+    while isinstance(v, ast.Call) and norm(v.func) == "bool" and len(v.args) == 1:
+        v = v.args[0]
+    ok = len(rets) == 1 and isinstance(v, ast.Attribute) and v.attr == "hit_precision" and is_self_attr(v.value, "problem", m.self_name())
+    recomputed = v is not None and any(isinstance(x, (ast.Compare, ast.BinOp)) for x in ast.walk(v))
+    return [ctx.ob("R16.7", m, m.node, status=OK if ok else VIOLATION if (recomputed or v is None or isinstance(v, ast.Constant)) else INCONCLUSIVE, detail="reads problem.hit_precision" if ok else f"the stop condition returns `{norm(rets[0].value) if rets else '?'}` instead of the sticky flag", construct="precision-gsc")]
 
 
 RULES = [
